@@ -99,6 +99,17 @@ var failClasses = []failClass{
 	{"yield-parameter-fails", `{{ yield zb(p=zzNope) }}`, true, true},
 	{"yield-context-fails", `{{ yield zb() zzNope }}`, true, true},
 	{"include-context-fails", `{{ include "/zinc.jet" zzNope }}`, true, true},
+	// a template that exists but does not parse: the failure is reported (by whom and with which
+	// position is not pinned down by the statement: Position false)
+	{"broken-template:include", `{{ include "/zbroken.jet" }}`, false, true},
+	{"broken-template:includeIfExists", `{{ includeIfExists("/zbroken.jet") }}`, false, true},
+	{"broken-template:includeIfExists:in-condition", `{{ if includeIfExists("/zbroken.jet") }}{{ end }}`, false, true},
+	{"broken-template:exec", `{{ exec("/zbroken.jet") }}`, false, true},
+	{"broken-reference:include", `{{ include "/zbadref.jet" }}`, false, true},
+	{"broken-reference:includeIfExists", `{{ includeIfExists("/zbadref.jet") }}`, false, true},
+	{"nil-map-index-then-field", `{{ root.NilP.Name }}`, true, true},
+	{"method-arg-count", `{{ item.Title(1) }}`, true, true},
+	{"field-of-string", `{{ s.Nope }}`, true, true},
 }
 
 type filePos struct {
@@ -178,6 +189,8 @@ func RunC12(env *sim.Env) {
 	opts.Sites, opts.Probes, opts.ProbeExpr, opts.Dump = true, true, false, false
 	world := gen.GenWorld(t, opts)
 	world.Files["/zinc.jet"] = "zinc"
+	world.Files["/zbroken.jet"] = "broken {{ if }} template"
+	world.Files["/zbadref.jet"] = `{{ extends "/zz/nowhere.jet" }}x`
 	data := gen.GenData(t, 1)
 	pools, un := installPools(env, simrt.PoolLIFO)
 	defer un()
